@@ -79,7 +79,7 @@ func symptomOfFailure(err error) (string, string) {
 		se := f.Stderr
 		switch {
 		case strings.Contains(se, "goroutine stack exceeds"):
-			return "unbounded-recursion", "goroutine stack exceeded 64 MiB: " + firstLine(se)
+			return "unbounded-recursion", "goroutine stack limit exceeded: " + firstLine(se)
 		case strings.Contains(se, "out of memory") || strings.Contains(se, "cannot allocate memory"):
 			return "worker-death:out-of-memory", firstLine(se)
 		case strings.Contains(se, "fatal error:"):
@@ -579,7 +579,11 @@ func Run() int {
 				if time.Now().After(e.deadline.Add(5 * time.Minute)) {
 					atomic.AddInt64(&notShrunk, 1)
 					fc := e.failing[i]
-					key := fmt.Sprintf("symptom=%s targets=%s input=%s", fc.sym, drive.Target(fc.c.W.Target), renderTree(fc.c.W.Files, fc.c.W.Main))
+					in := renderTree(fc.c.W.Files, fc.c.W.Main)
+					if fc.c.Graph != nil {
+						in = "import-graph" + fc.c.Graph.Canonical().String()
+					}
+					key := fmt.Sprintf("symptom=%s targets=%s input=%s", fc.sym, drive.Target(fc.c.W.Target), in)
 					e.r.Fail(key, describe(fc.sym, fc.detail)+" (not shrunk: time budget exhausted)", func() findings.Replay { return replayFor(fc.c.W, fc.sym, fc.detail, fc.c) })
 					continue
 				}
@@ -635,10 +639,10 @@ func Run() int {
 	}
 	tierRule := "quick: B = all byte strings of length <=2 over 256 values as main file and length <=1 as imported file; T = all sequences of length <=3 over 30 lexemes, with and without a declaring prelude; E1 = every single lexeme edit (delete, duplicate, swap with next, replace by each of 40 lexemes) of 40 valid programs; N; I"
 	if thorough {
-		tierRule = "thorough: B = all byte strings of length <=2 over 256 values as main and as imported file, Bclass = length 3 over a REDUCED alphabet of 42 class representatives (256^3 x 2 targets does not fit the time budget); T = all sequences of length <=3 over 50 lexemes and of length 4 over 30 lexemes, with and without a declaring prelude; E1 = every single lexeme edit of 150 valid programs (programs over 200 lexemes: delete/duplicate/swap only); E2 = every pair of edits (delete, duplicate, swap, replace by 8 lexemes) within a window of 3 lexemes of 40 valid programs; N; I"
+		tierRule = "thorough: B = all byte strings of length <=2 over 256 values as main and as imported file, Bclass = length 3 over a REDUCED alphabet of 42 class representatives (256^3 x 2 targets does not fit the time budget); T = all sequences of length <=3 over 50 lexemes and of length 4 over 30 lexemes, with and without a declaring prelude (length 4: shorter prelude without the multi-value function); E1 = every single lexeme edit of 150 valid programs (programs over 200 lexemes: delete/duplicate/swap only); E2 = every pair of edits (delete, duplicate, swap, replace by 8 lexemes) within a window of 3 lexemes of 40 valid programs; N; I"
 	}
 	r.Set("rule", tierRule+"; N = near-miss catalogue (every value position x every filler incl. void call, multi-value call, slice, app call; every construct with one lexeme missing); I = all 2^9 import graphs over 3 files incl. self-loops and cycles plus missing/directory/unreadable files; everything for both targets. A case is distinct if its (source tree, main, target) differs; non-trivial if the main file is not empty. Oracle: exactly one of (script, nil) / (\"\", error with text); no panic, no unbounded recursion, no hang, no worker death.")
-	r.Assumef("unbounded recursion is reported when (*Parser).parse nests deeper than %d (depth counter inserted by a build overlay generated from the current parser.go) or, without the counter, when the goroutine stack exceeds 64 MiB; a repair that merely bounds the import depth at >= %d would be misreported", DepthLimit, DepthLimit)
+	r.Assumef("unbounded recursion is reported when (*Parser).parse nests deeper than %d (depth counter inserted by a build overlay generated from the current parser.go) or, without the counter, when the goroutine stack exceeds its limit (64 MiB with the counter, 8 MiB without); a repair that merely bounds the import depth at >= %d would be misreported", DepthLimit, DepthLimit)
 	r.Assumef("hang = no answer within %d s, confirmed by one re-run alone; typical cases take < 10 ms", int(e.watchdog.Seconds()))
 	r.Assumef("unreadable files cannot be produced when the check runs as root; such cases are skipped and counted in skipped_unspecified")
 	r.Assumef("byte strings of length 3 are covered over 42 class representatives only; longer inputs only through the token, edit and near-miss spaces")
